@@ -62,6 +62,10 @@ CHECKS = {
             "Every ordered pair of operands from {empty, every simple lattice polygon, polygons with a (possibly touching) hole, two-member multipolygons} x {intersection, union, difference, xor}: on every face witness of the exact arrangement of both boundaries, inside(result) must equal the Boolean combination; every result vertex lies on an input boundary; exteriors CCW, holes CW, rings closed; the three area identities; operands rewritten with reversed windings, rotated rings, a repeated vertex and a repeated closing vertex; Polygon vs MultiPolygon operands and boolean_op; unary_union of consistently wound collections (both windings) vs the fold of unions vs the member union; clip(false/true) of every lattice line string (incl. along the boundary) per sub-edge of the arrangement, with length conservation.",
             "inside(result,q) is evaluated in f64 at witnesses at least 1e-6 from every input boundary (none had to be skipped on these lattices; the count is reported). Snapping tolerance 1e-6.",
             "DESIGN.md §4 C04"),
+    "C10": ("E1-grid", "bounded exhaustive enumeration of lattice polygons vs exact tiling check on the arrangement of all triangle and polygon edges",
+            "Every simple lattice polygon (all of G3, G4 up to 5 vertices) and every valid polygon with a hole over five shells (holes touching the shell included), also translated by 1e6: ear-cut (rings not touching), constrained and unconstrained Delaunay, monotone subdivision, stitch(earcut). Corners must be polygon vertices, areas must sum exactly, and on every face of the exact arrangement of all triangle/piece and polygon edges exactly one triangle/piece covers the face inside the region and none outside; MonotonicPolygons::intersects must equal exact point location on the half-step lattice extended beyond the bounding box.",
+            "stitch(earcut) is compared by area and exterior/non-exterior only (ear-cut may leave a T-junction, the property asks for the same area). One known finding (monotone_subdivision panic on a T-junction).",
+            "DESIGN.md §4 C10"),
 }
 
 NOT_YET = "check not built yet in this round (planned: bounded exhaustive exploration, see DESIGN.md §4)"
